@@ -490,12 +490,34 @@ def gen_match_world(rng: random.Random, n_steps: int) -> Dict[str, Any]:
         # parked and base-charging vehicles are dispatchable in this configuration: let idle vehicles go home quickly and
         # let more requests arrive once they are parked
         disp["idle_time_out_seconds"] = 60
+        if rng.random() < 0.5:
+            # "never hold vehicles at the base": the base threshold at or below the matching threshold (default 20 km)
+            disp["base_charging_range_km_threshold"] = rng.choice([0, 10, 20])
         for k in range(rng.randint(2, 5)):
             o = lattice[rng.randrange(len(lattice))]
             d = lattice[rng.randrange(len(lattice))]
             later.append({"id": f"l{k+1}", "o": o, "d": d, "dep": dt * rng.randint(6, 13), "pax": 1,
                           "fleet": rng.choice(["fa", "fb"]) if use_fleets else None})
         later.sort(key=lambda r: (r["dep"], r["id"]))
+    if len(states) > 2 and "base_charging_range_km_threshold" in disp and rng.random() < 0.6:
+        # the depot: autonomous vehicles low on charge standing at the base, no public station to be sent to - they park,
+        # plug in at the base and are still below the matching range when the later requests arrive next to them
+        stations = stations[:1]
+        disp["base_charging_range_km_threshold"] = rng.choice([0, 10])
+        vehicles = [v for v in vehicles if "schedule" not in v][:2]
+        for v in vehicles:
+            v["soc"] = rng.choice([0.3, 0.9])
+            v["lat"], v["lon"] = lattice[-1]                       # the healthy ones are far away
+        for k in range(rng.randint(2, 4)):
+            vehicles.append({"id": f"d{k+1}", "lat": b[0], "lon": b[1], "mech": "leaf_50", "soc": rng.choice([0.02, 0.032, 0.04, 0.05])})
+        if use_fleets:
+            for v in vehicles:
+                if v["id"].startswith("d"):
+                    for f in rng.choice([["fa"], ["fb"], ["fa", "fb"]]):
+                        fl[f]["vehicles"].append(v["id"])
+        preload = preload[:2]
+        for r in later:
+            r["o"] = lattice[rng.randrange(3)]
     w = {"name": "match", "dt": dt, "start": 0, "end": dt * n_steps, "cancel": 600, "vehicles": vehicles, "requests": later,
          "preload": preload, "stations": stations, "bases": bases, "focus": "match",
          "schedules": [("on", "00:00:00", "23:00:00"), ("off", "23:30:00", "23:40:00")],
